@@ -219,6 +219,20 @@ func CheckPanics(run *core.Run, prog *load.Program) {
 						add("panic", "panic(…)", x)
 					}
 				}
+				// library functions that panic on bad input by contract (regexp.MustCompile, template.Must,
+				// strings.Repeat with a negative count ...): fine on constants, a panic site on anything else
+				if callee, ok := typeutil.Callee(info, x).(*types.Func); ok && callee.Pkg() != nil && !prog.IsMoqPkg(callee.Pkg()) && strings.HasPrefix(callee.Name(), "Must") {
+					s := add("must-call", callee.FullName()+"(…)", x)
+					allConst := len(x.Args) > 0
+					for _, a := range x.Args {
+						if tv := info.Types[a]; tv.Value == nil {
+							allConst = false
+						}
+					}
+					if allConst {
+						s.ok, s.reason = true, "constant arguments: the outcome is the same on every run"
+					}
+				}
 				if sel, ok := ast.Unparen(x.Fun).(*ast.SelectorExpr); ok && len(x.Args) == 1 {
 					if callee, ok := typeutil.Callee(info, x).(*types.Func); ok && callee.Pkg() != nil && callee.Pkg().Path() == "go/types" {
 						if bound, isAcc := accessorBound[sel.Sel.Name]; isAcc {
